@@ -1,4 +1,4 @@
-import BobModel.Proofs.C06Order11
+import BobModel.Proofs.C06Order13
 /-
 C06 — parallel builds are schedule independent and bounded.
 
@@ -188,7 +188,7 @@ theorem events_of_a_step {st' : Sched.St} {t : Nat} (h : stepTask P cfg st t = s
     ∃ evs, st'.trace = st.trace ++ evs ∧ NewEvents P st t evs :=
   stepTask_trace h
 
-/-! ### statements that are evaluated on every replayed and explored schedule but not (yet) proved -/
+/-! ### ordering and dataflow: deps_first, once (proved), schedule_independent (refuted as stated, proved with `ReadsDeps`) -/
 
 /-- under `PathVid` (a workspace belongs to one variant, C16; `Sched.PathVid`) `_wasAlreadyRun` never prunes an
 entry of the table and answers exactly "this step was run in this invocation"; the filter at the top of `_cook`
@@ -215,11 +215,21 @@ dependencies of `s` finished successfully, or is preceded by an operation that g
 `_cook` of the dependencies, the spawn of their cook tasks, `yieldRel` / `gather` on these tasks: `Sched.chk`); a cook
 task that ended without an exception has left a successful end of a script of its workspace in the history; `wasRun`
 says "run" only for workspaces with a successful end; `cookTasks` maps a key to a cook task of that workspace.
-What is missing for `deps_first_goal`: the sequential scheduler of `-j1` (`cfg.par = false`: `spawnSeq` / `waitOnly` /
-`results`), which needs "the tasks collected in `made` are done" as a second kind of obligation in `Sched.chk`. -/
+(Superseded by `deps_first` below, which also covers the sequential scheduler of `-j1`; kept because its invariant is
+the simpler one.) -/
 theorem deps_first_partial (P : Project) (cfg : Cfg) (n : Nat) (r0 : Runners) (st : Sched.St) (hpv : PathVid P)
     (hpar : cfg.par = true) (hr : GoodRunners n r0) (h : Reach P cfg r0 st) : depsFirst P st = true :=
   deps_first_par hpv hpar hr h
+
+/-- **deps_first** at full strength: every project, configuration (parallel and sequential `-j1` scheduler), job
+server mode and schedule.  Invariant `Sched.Full.DepsInv` over `Reach` = the invariant of `deps_first_partial` with the
+generalised check `Sched.gchk`, instantiated twice: "the dependencies of `s` are finished" (now also covered by the
+sequential spawn loop: `spawnSeq .cook todo false made` covers what is still in `todo` or cooked by a task in `made`,
+`results made` covers what the done tasks in `made` cooked) and "task `k` is done" (needed by `spawnSeq` for the
+tasks in `made`, covered by `yieldRel [k] false` / `waitOnly [k]`). -/
+theorem deps_first : deps_first_goal := by
+  intro P cfg n r0 st hpv hr h
+  exact Full.deps_first_all hpv hr h
 
 /-- **once** (first half of once_and_exclusive): per workspace, starts and ends alternate and a workspace is
 started again only after a failed execution (possible when step objects with different sandboxes share it) -/
@@ -251,7 +261,7 @@ def schedule_independent_goal : Prop :=
 `getAllDepSteps`; without it the statement is false, see `schedule_independent_refuted` below).
 `hdf` (`Sched.DepsAtEnd` in every reachable configuration): the state form of deps_first - a task whose script is
 running has the scripts of all valid dependencies of its step finished successfully; this is `deps_first_goal`, which
-is proved for parallel builds only (`deps_first_partial`, see `schedule_independent_partial_par`).  The proof uses **once** (after a successful end a workspace is never started again, a failing
+is now proved (`deps_first`; `schedule_independent_fixed` below needs neither `hdf` nor a mode).  The proof uses **once** (after a successful end a workspace is never started again, a failing
 script never overwrites a good result) and the per-workspace lock. -/
 theorem schedule_independent_partial (P : Project) (cfg : Cfg) (n : Nat) (r0 : Runners) (st : Sched.St)
     (value : Nat → Nat) (hpv : PathVid P) (hval : ∀ s, value s = P.run s ((P.info s).bidDeps.map value))
@@ -262,13 +272,30 @@ theorem schedule_independent_partial (P : Project) (cfg : Cfg) (n : Nat) (r0 : R
   ValInv.reach hpv hval hpath hrd hr hdf h
 
 /-- **schedule_independent**, partial, for parallel builds: only the hypothesis `hrd` that the statement lacks
-(`Sched.ReadsDeps`) and `hpar : cfg.par = true` (because deps_first is proved for parallel builds only). -/
+(`Sched.ReadsDeps`) and `hpar : cfg.par = true`; superseded by `schedule_independent_fixed`. -/
 theorem schedule_independent_partial_par (P : Project) (cfg : Cfg) (n : Nat) (r0 : Runners) (st : Sched.St)
     (value : Nat → Nat) (hpv : PathVid P) (hval : ∀ s, value s = P.run s ((P.info s).bidDeps.map value))
     (hpath : ∀ s s', (P.info s).path = (P.info s').path → value s = value s')
     (hrd : ReadsDeps P) (hpar : cfg.par = true) (hr : GoodRunners n r0) (h : Reach P cfg r0 st) :
     ∀ t s, Ev.fin t s true ∈ st.trace → st.diskAt (P.info s).path = value s :=
   ValInv.reach hpv hval hpath hrd hr (fun _ h' => depsAtEnd_par hpv hpar hr h') h
+
+/-- **schedule_independent** with the hypothesis that the original statement lacks (`Sched.ReadsDeps`: what a script
+reads, `bidDeps` = valid arguments and tools, is among the valid dependencies of its step, as in Bob's
+`getAllDepSteps`).  The original `schedule_independent_goal` stays above, with its refutation
+`schedule_independent_refuted` below. -/
+def schedule_independent_fixed_goal : Prop :=
+  ∀ (P : Project) (cfg : Cfg) (n : Nat) (r0 : Runners) (st : Sched.St) (value : Nat → Nat), PathVid P → ReadsDeps P →
+    (∀ s, value s = P.run s ((P.info s).bidDeps.map value)) →
+    (∀ s s', (P.info s).path = (P.info s').path → value s = value s') →
+    GoodRunners n r0 → Reach P cfg r0 st →
+    ∀ t s, Ev.fin t s true ∈ st.trace → st.diskAt (P.info s).path = value s
+
+/-- **schedule_independent** (fixed statement) at full strength, all modes: by `deps_first` in its state form
+(`Sched.Full.depsAtEnd_all`), **once** and the workspace locks (`Sched.ValInv`). -/
+theorem schedule_independent_fixed : schedule_independent_fixed_goal := by
+  intro P cfg n r0 st value hpv hrd hval hpath hr h
+  exact ValInv.reach hpv hval hpath hrd hr (fun _ h' => Full.depsAtEnd_all hpv hr h') h
 
 /-- `d` is `s` or a valid step below it (dependencies of invalid steps are never cooked) -/
 inductive Below (P : Project) : Nat → Nat → Prop
@@ -373,6 +400,30 @@ example : depsFirst exGood exGoodSt = true ∧ exGoodSt.diskAt (exGood.info 1).p
     rcases s with _ | _ | s <;> rcases s' with _ | _ | s' <;> simp_all [exBadValue, exGood, Project.info, List.getD, default]
   · intro s d hd
     rcases s with _ | _ | s <;> simp_all [exGood, Project.info, List.getD, default]
+
+/-- non-vacuity of `deps_first` and `schedule_independent_fixed` in the sequential mode (`par := false`: the
+dispatcher and every `_cook` spawn one task at a time and wait for it): the same chain built to the end -/
+def exCfgSeq : Cfg := { par := false, keepGoing := false, co0 := false, targets := [1] }
+
+def exSeqSchedule : List Choice :=
+  [.task 0, .task 0, .task 1, .task 1, .task 1, .task 1, .task 1, .task 1,
+   .task 2, .task 2, .task 2, .task 2, .task 2, .task 2,
+   .task 3, .task 3, .task 3, .task 3, .task 3, .task 3, .finish 3 true, .task 3, .task 3, .task 3, .task 3, .task 3,
+   .task 2, .task 2, .task 2, .task 2, .task 2, .task 2, .task 2, .task 2, .finish 2 true, .task 2]
+
+def exSeqSt : Sched.St := exec exGood exCfgSeq exSeqSchedule (init exCfgSeq exR2)
+
+example : Ev.start 2 1 ∈ exSeqSt.trace ∧ depsFirst exGood exSeqSt = true ∧ exSeqSt.diskAt (exGood.info 1).path = 12 := by
+  have hr : Reach exGood exCfgSeq exR2 exSeqSt := reach_exec Reach.init _
+  refine ⟨by decide +kernel, deps_first exGood exCfgSeq 2 exR2 exSeqSt exGood_pathVid GoodRunners.bounded hr, ?_⟩
+  refine schedule_independent_fixed exGood exCfgSeq 2 exR2 exSeqSt exBadValue exGood_pathVid ?_ ?_ ?_
+    GoodRunners.bounded hr 2 1 (by decide +kernel)
+  · intro s d hd
+    rcases s with _ | _ | s <;> simp_all [exGood, Project.info, List.getD, default]
+  · intro s
+    rcases s with _ | _ | s <;> simp [exBadValue, exGood, Project.info, List.getD, default]
+  · intro s s' h
+    rcases s with _ | _ | s <;> rcases s' with _ | _ | s' <;> simp_all [exBadValue, exGood, Project.info, List.getD, default]
 
 theorem schedule_independent_refuted : ¬ schedule_independent_goal := by
   intro h
